@@ -85,6 +85,35 @@ def run(tier, seed):
     ex = next((t for t in traces if any(c["fault"] for c in t["calls"])), traces[0] if traces else {"key": "", "calls": []})
     ctx.sample({"direction": "B", "scenario": ex["key"],
                 "faulted_call": next(({k: c[k] for k in ("fault", "outcome", "order", "pre", "post")} for c in ex["calls"] if c["fault"]), None)})
+    # BatchSage at the grain of its callbacks: TLC model + negative control + every behaviour replayed
+    from harness import tlc as _tlc
+    for cfg in (["q"] if quick else ["q", "t"]):
+        rb = _tlc.require_ok(_tlc.run("BatchSage", "BatchSage_" + cfg, tag="c17bs", timeout=1500), cfg)
+        if rb.status != "ok":
+            raise _tlc.TLCError("BatchSage(%s) violates %s" % (cfg, rb.violated))
+        ctx.add_tlc("BatchSage_%s: FaultAtomic BatchEfficiency ModelBudget (fault at every callback of explain_many / _original)" % cfg, rb)
+    rbn = _tlc.require_ok(_tlc.run("BatchSage", "BatchSage_neg", tag="c17bsn"), "neg")
+    if rbn.status != "violation":
+        raise _tlc.TLCError("negative control CommitInPlace not refuted")
+    ctx.add_tlc("negative control CommitInPlace refuted (%s)" % rbn.violated, rbn, kind="negative_control")
+    rbe = _tlc.require_ok(_tlc.run("BatchSage", "BatchSage_emit", workers=1, tag="c17bse"), "emit")
+    brecs = rbe.json_prints()
+    if quick and len(brecs) > 800:
+        brecs = rng.sample(brecs, 800)
+    ctx.add_tlc("behaviour export BatchSage_emit", rbe, kind="behaviour_export", behaviours=len(brecs))
+    for rec in brecs:
+        probs, _ = EB.replay_batch_fault_behaviour(rec, 2, 1)
+        for (clause, detail) in probs:
+            if clause == "replay.batch.not_followed":
+                ctx.skip("batch behaviours the code could not follow (different random primitives)")
+                continue
+            if clause in ("replay.batch.fault_atomic", "replay.batch.outcome"):
+                ctx.violation(clause, "mode=%s fault=%s" % (rec["mode"], rec["fault"]), detail, {"batch_fault_behaviour": rec})
+        if rec["fault"]:
+            ctx.nontrivial(("BA", str(rec["data"]), rec["mode"], rec["fault"]))
+    ctx.traces += len(brecs)
+    ctx.evaluations += len(brecs)
+    ctx.count_clause("replay.batch.fault_atomic", sum(1 for r_ in brecs if r_["fault"]))
     bscs = batch_fault_scenarios(rng, 10 if quick else 80, quick)
     btr, bfails = EB.validate(ctx, bscs, lambda clause: clause.startswith("fault."), "BatchSage / IntervalSage with an injected fault at an "
                               "enumerated (call, callback) position")
